@@ -243,7 +243,15 @@ theorem key_created_once_reused (dir : Option Nat) (f0 f : Nat) :
     openDb w1 .new f = (w1, .opened (some f0) 0) := by
   cases dir <;> simp [World.fresh, openDb, ctorNew, precreate, getOrCreate, getDbKey, finishOpen, sqlOpen]
 
---STORES_HIST--
+/-- for EVERY history of constructor calls (any constructors, any presented keys, any generated values,
+    any keyring state to begin with) on a real path that starts from a missing file, at most one key is
+    ever stored -/
+theorem stores_le_one_all_histories (dir : Option Nat) (r : RingSt) (h : List (Ctor × Key)) :
+    (runOpens { World.fresh dir with ring := r } h).stores ≤ 1 :=
+  runOpens_stores_le_one _ h (by simp [World.fresh])
+
+example : (runOpens (World.fresh none) [(.new, 7), (.withKey 7, 0), (.new, 8), (.unenc, 0), (.new, 9)]).stores = 1 := by
+  decide
 
 /-! ### behaviour the code has and a reader may not expect (each replayed on the implementation from
     `corpus/C13/`) -/
